@@ -198,6 +198,28 @@ func TestC08_Save(t *testing.T) {
 			var args []string
 			var want savedEntry
 			pipeline := rapid.IntRange(0, 2).Draw(t, "save-pipeline") == 0
+			oneFieldResave := false
+			if ccls == "reused" && rapid.Bool().Draw(t, "one-field-resave") {
+				// save an existing entry again with exactly one field changed (or none)
+				for _, m := range model {
+					if m.Command == cmdStr && !m.AutoDesc && m.UserKeywords == nil {
+						pipeline, oneFieldResave = false, true
+						desc, kws, plats, niche = m.Description, append([]string{}, m.Keywords...), append([]string{}, m.Platform...), m.Niche
+						switch rapid.IntRange(0, 5).Draw(t, "changed-field") {
+						case 0:
+							desc += " v2"
+						case 1:
+							kws = append(kws, "extra")
+						case 2:
+							niche += "x"
+						case 3:
+							plats = append(plats, "linux")
+						case 4: // nothing but the pipeline flag (drawn below) may change
+						}
+						break
+					}
+				}
+			}
 			for _, k := range kws {
 				args = append(args, "--keywords="+k)
 			}
@@ -220,7 +242,15 @@ func TestC08_Save(t *testing.T) {
 				okLine = "Pipeline saved successfully!"
 			} else {
 				want = savedEntry{Command: cmdStr, Description: desc, Niche: niche, Platform: plats, Keywords: kws}
-				if rapid.IntRange(0, 3).Draw(t, "pipeline-flag") == 0 {
+				setFlag := rapid.IntRange(0, 3).Draw(t, "pipeline-flag") == 0
+				if oneFieldResave {
+					for _, m := range model {
+						if m.Command == cmdStr {
+							setFlag = m.Pipeline != rapid.Bool().Draw(t, "flip-pipeline") // often the only difference
+						}
+					}
+				}
+				if setFlag {
 					args = append(args, "--pipeline")
 					want.Pipeline = true
 				}
